@@ -83,10 +83,10 @@ def runs(tier):
                 {(2, 2), (2, 3), (3, 2), (3, 3), (2, 2, 2), (3, 2, 2), (2, 3, 2), (2, 2, 3)},
                 UlamN={1, 5, 9} if q else {1, 3, 5, 9, 14})
     out = [dict(name='slim', module='Slim', constants=base, invariants=['ColumnSumsZero', 'OffDiagNonNeg', 'UlamTotal'])]
-    if not q:
-        out.append(dict(name='slim4', module='Slim', invariants=['ColumnSumsZero', 'OffDiagNonNeg', 'UlamTotal'],
-                        constants=dict(base, MaxD=4, Sizes={2}, NSingle={1}, NTwo={2}, Seeds={1, 2}, ExhaustiveD2=False,
-                                       UlamGrids={(2, 2)}, UlamN={1})))
+    # order 4 (two interior cores: pass-through blocks of cyclic chains next to each other)
+    out.append(dict(name='slim4', module='Slim', invariants=['ColumnSumsZero', 'OffDiagNonNeg', 'UlamTotal'],
+                    constants=dict(base, MaxD=4, Sizes={2} if q else {2, 3}, NSingle={1}, NTwo={2}, Seeds={1, 2}, ExhaustiveD2=False,
+                                   UlamGrids={(2, 2)}, UlamN={1})))
     return out
 
 
